@@ -67,7 +67,7 @@ def _work(job):
                                                   audit_git=(job.get("dev") != "fault-enumeration"))
         else:
             raise ValueError(kind)
-        tr["job"] = {k: v for k, v in job.items() if k != "behaviour"}
+        tr["job"] = {k: v for k, v in job.items() if k not in ("behaviour", "witness")}
         if kind == "model":
             tr["job"]["rqs"] = [st["rq"] for st in job["behaviour"]
                                 if st.get("rq", {}).get("op") not in (None, "Init")]
@@ -170,6 +170,21 @@ def run(prop, tier, seed, replay=None):
                                          ["put", "cal1", "b.ics", "@model:7"],
                                          ["multiget", "cal1", [["live", "a.ics"], ["othercoll:cal2", "a.ics"], ["live", "b.ics"]]],
                                          ["multiget", "cal2", [["othercoll:cal1", "a.ics"], ["live", "a.ics"]]]]),
+        # display names a client echoes back: the default one (last path segment), the current one,
+        # a removed one - on both kinds of metadata storage
+        "echoed-names": (HTTP_CONFIGS[0], [["mk", "cal1", "calendar"], ["mk", "ab1", "addressbook"],
+                                           ["propupdate", "cal1", [["displayname", "calendar"]]],
+                                           ["propupdate", "cal1", [["displayname", "Work"]]],
+                                           ["propupdate", "cal1", [["displayname", "calendar"]]],
+                                           ["propupdate", "cal1", [["displayname", "Work"]]],
+                                           ["propupdate", "cal1", [["displayname", "Work"]]],
+                                           ["propupdate", "cal1", [["displayname", None]]],
+                                           ["propupdate", "ab1", [["displayname", "Friends"]]],
+                                           ["propupdate", "ab1", [["displayname", "addressbook"]]],
+                                           ["restart"],
+                                           ["propupdate", "ab1", [["displayname", "contacts"]]],
+                                           ["propupdate", "ab1", [["displayname", "addressbook"]]],
+                                           ["propupdate", "ab1", [["displayname", None]]]]),
     }
     for name, (cfg, steps) in sorted(DIRECTED.items()):
         tid += 1
